@@ -42,6 +42,11 @@ def strip_rec(t, steady):
     return tuple(strip_rec(x, steady) if isinstance(x, tuple) else x for x in t)
 
 
+def one_formula(ty):
+    """The validator's first parameter is a single formula text (not a list / iterator of them)."""
+    return "str" in ty.lower() and not any(k in ty for k in ("Vec<", "[", "Iterator", "IntoIter", "Iter<"))
+
+
 def run(prog, rep):
     rep.explanation = __doc__
     rep.assumptions = ["L1", "L2", "L5 FixedPoints::symbolic returns the empty set on networks without steady states"]
@@ -115,7 +120,7 @@ def run(prog, rep):
             ev, pv = evs[0], pvs[0]
             a = ev.args
             # the validator takes the list of formulae (then `vec![formula]`) or one formula at a time (then the formula itself)
-            single = vplain is not None and "Vec<" not in str(vplain.param_tys[0]) and "[" not in str(vplain.param_tys[0])
+            single = vplain is not None and one_formula(str(vplain.param_tys[0]))
             rep.check(pv.args[0] == (formula if single else ("vec", (formula,))) and pv.args[1] == graph, "C18-O4", "unsafe_ex/parse", pv.where(),
                       "parse_and_validate(vec![formula], graph)", f"parse_and_validate called with {[sem.short(x, 60) for x in pv.args]}")
             tree = a[0]
@@ -140,7 +145,7 @@ def run(prog, rep):
         spn = std.param_names()
         pv2 = ss.sites_to(vname, deep=True)
         import norm as _norm
-        single = vplain is not None and "Vec<" not in str(vplain.param_tys[0]) and "[" not in str(vplain.param_tys[0])
+        single = vplain is not None and one_formula(str(vplain.param_tys[0]))
         first = _norm.Normalizer()(pv2[0].args[0]) if len(pv2) == 1 else None
         # (a validator that takes one formula is applied to every element of the list)
         all_formulae = first == ("param", spn[0]) if not single else (first is not None and first[0] == "elem" and _norm.strip_adapters(first[1]) == ("param", spn[0]))
